@@ -54,6 +54,7 @@ prop('C08', 'c08', '5 (C08)')
 prop('C09', 'c09', '5 (C09)')
 prop('C10', 'c10', '5 (C10)')
 prop('C11', 'c11', '6 (C11)')
+prop('C12', 'c12', '6 (C12)', gens=('GenArith.v', 'GenMaxSize.v'))
 prop('C13', 'c13', '6 (C13)')
 prop('C15', 'c15', '7 (C15)', gens=('GenSchemaDecl.v',))
 prop('C16', 'c16', '7 (C16)', gens=('GenSchemaDecl.v', 'GenHashTags.v', 'GenArith.v'))
